@@ -656,10 +656,12 @@ def hkey(c):
 
 def run(ctx):
     quick = ctx.tier == "quick"
-    consts = {"Versions": "1..2", "Args": "1..2", "MaxOps": "4" if quick else "5", "UseKinds": '{"tempo"}', "Emit": "TRUE"}
+    allops = '{"set", "setb", "corr", "eta", "bath", "battr", "bcorr", "compute"}'
+    consts = {"Versions": "1..2", "Args": "1..2", "MaxOps": "4" if quick else "5", "UseKinds": '{"tempo"}', "Emit": "TRUE",
+              "Ops": allops}
     strict = ctx.tlc("ObjectGraph", CFG, label="strict: Freshness and Isolation over all histories", workers=4,
                      constants=dict(consts, Devs="{}"))
-    for dev in ("StaleEtaCache", "CopyClosure", "HandsOutOwn"):
+    for dev in ("StaleEtaCache", "CopyClosure", "HandsOutOwn", "SharedMemo"):
         r = ctx.tlc("ObjectGraph", CFG, label="deviation %s (must violate)" % dev, workers=4, must_hold=False,
                     constants=dict(consts, Devs='{"%s"}' % dev, Emit="FALSE"))
         if r.ok:
@@ -670,6 +672,14 @@ def run(ctx):
     cases = strict.cases
     if not quick:
         cases = [c for i, c in enumerate(cases) if i % 2 == 0]
+    # long parameter sweeps: the correlations object is changed and a new bath built and used, again and again
+    sweepc = dict(consts, Ops='{"set", "bath", "compute", "battr"}', MaxOps="6" if quick else "7")
+    sweeps = ctx.tlc("ObjectGraph", CFG, label="strict: parameter sweeps (set / bath / compute)", workers=4,
+                     constants=dict(sweepc, Devs="{}"))
+    sdev = ctx.tlc("ObjectGraph", CFG_NOPROP, label="deviated expectations on sweeps", workers=4,
+                   constants=dict(sweepc, Devs='{"StaleEtaCache", "CopyClosure"}'))
+    devobs.update({hkey(c): [h["obs"] for h in c["hist"]] for c in sdev.cases})
+    cases = cases + [c for c in sweeps.cases if sum(1 for h in c["hist"] if h["op"] == "bath") >= 2]
     res = core.pmap(history_job, cases, chunksize=8)
     for c, r in zip(cases, res):
         cid = {"history": [[h["op"], h["arg"]] for h in c["hist"]]}
